@@ -51,6 +51,15 @@ def _path(rel):
     return p
 
 
+def _stale(path, hours=6):
+    """Caches of other trees are pruned only when old: another check (other VERIF_REPO) may be using them right now."""
+    import time
+    try:
+        return time.time() - os.path.getmtime(path) > hours * 3600
+    except OSError:
+        return False
+
+
 def inputs_hash():
     h = hashlib.sha256()
     for rel in M4_INPUTS + CONFIGURE_OUTPUTS:
@@ -73,7 +82,7 @@ def regenerate(log=lambda s: None):
     with common.Lock("cif-gen"):
         if not os.path.exists(stamp):
             for old in glob.glob(os.path.join(common.BUILD, "cif-*")):
-                if old != top and os.path.isdir(old):
+                if old != top and os.path.isdir(old) and _stale(old):
                     shutil.rmtree(old, ignore_errors=True)
             shutil.rmtree(top, ignore_errors=True)
             os.makedirs(gen)
@@ -300,6 +309,51 @@ def stmt_returns(s):
     return False
 
 
+def addr_of_local_stored(param_toks, body):
+    """Syntactic fact: statements `*P = ... &V ...;` where P is a pointer PARAMETER and V a non-static, non-reference,
+    non-pointer LOCAL object of the body (its address dies with the call).  Returns [(P, V)]."""
+    params = set()
+    cur = []
+    for t in param_toks + [","]:
+        if t == ",":
+            if "*" in cur and cur and re.match(r"[A-Za-z_]\w*$", cur[-1]):
+                params.add(cur[-1])
+            cur = []
+        else:
+            cur.append(t)
+    out = []
+    def scan(toks):
+        locs = set()
+        for st in split_statements(toks):
+            if not st:
+                continue
+            if st[0] == "{":
+                j = match_close(st, 0, "{", "}"); scan(st[1:j]); continue
+            if st[0] in ("if", "for", "while", "switch", "else", "do"):
+                for k, t in enumerate(st):
+                    if t == "{":
+                        j = match_close(st, k, "{", "}"); scan(st[k + 1:j]); break
+                continue
+            # declaration?  [type tokens] name (= | ( | ;)
+            head, depth = [], 0
+            for t in st:
+                if t in ("<",): depth += 1
+                if t in (">",): depth -= 1
+                if depth == 0 and t in ("=", "(", ";"):
+                    break
+                head.append(t)
+            if len(head) >= 2 and re.match(r"[A-Za-z_]\w*$", head[-1]) and head[0] not in ("static", "return", "delete", "using", "typedef", "*") \
+               and head[-2] not in ("&", "*", ".", "->", "::") and head[0] != head[-1]:
+                locs.add(head[-1])
+            if len(st) >= 4 and st[0] == "*" and st[1] in params and st[2] == "=":
+                for k in range(3, len(st) - 1):
+                    if st[k] == "&" and st[k - 1] in ("(", "=", ",") and st[k + 1] in locs:
+                        out.append((st[1], st[k + 1]))
+        return locs
+    scan(body)
+    return out
+
+
 def parse_handler(ptoks, btoks):
     """catch (ptoks) { btoks }"""
     p = [t for t in ptoks if t not in ("const", "&")]
@@ -373,6 +427,7 @@ def parse_tu(text, fname):
                        "params": "".join(_sp(decl[p + 1:q])), "has_try": has_try, "in_ns": in_ns,
                        "body_returns": ends_in_return(body), "chain": [],
                        "calls": calls_in(body), "inner_try": "try" in body,
+                       "addr_of_local": addr_of_local_stored(decl[p + 1:q], body),
                        "static_objs": [body[k + 1] for k in range(len(body) - 2) if body[k] == "static" and body[k + 2] not in ("(", "*")]}
                 i = j + 1
                 if has_try:
@@ -636,7 +691,7 @@ def build_objects(top, gen, libdir, names, log=lambda s: None):
     import concurrent.futures as cf
     odir = os.path.join(top, "obj-" + os.path.basename(libdir))
     for old in glob.glob(os.path.join(top, "obj-*")):
-        if old != odir:
+        if old != odir and _stale(old):
             shutil.rmtree(old, ignore_errors=True)
     os.makedirs(odir, exist_ok=True)
     flags = ["-std=c++11", "-DHAVE_CONFIG_H"] + include_flags(gen, libdir) + ["-O1", "-frounding-math", "-Wdangling-pointer=2", "-Wreturn-local-addr"]
